@@ -13,7 +13,7 @@ From Coq Require Import List NArith ZArith Bool Lia.
 From ApiFu Require Import Base.Sexp.
 From ApiFu Require Syn.Ast Syn.ParserModel Syn.FrontEnd.
 From ApiFu Require Vld.Ast Vld.ValidatorModel Vld.ValidSpec Vld.ProofsCommon Vld.ProofsFragDecl Vld.ValidatorProofs Vld.TypeInfoPure.
-From ApiFu Require Exe.ExecData Exe.ExecModel Exe.ExecSpec Exe.ExecHyps.
+From ApiFu Require Val.Values ExeA.ArgData ExeA.ArgArgs ExeA.ArgModel ExeA.ArgSpec ExeA.ArgHyps.
 From ApiFu Require Import Pipe.Convert Pipe.Compose Pipe.SchemaAgree Pipe.PositionsProofs Pipe.ComposeProofs.
 Import ListNotations.
 
@@ -62,24 +62,24 @@ Qed.
 (** ... and the executor's [sel_conds_ok] asks [cond_ok] of exactly them (and [dirs_ok] of every
     selection) *)
 Fixpoint exe_conds_sel ES E (s : Syn.Ast.selection) :
-  Forall (fun c => Exe.ExecSpec.cond_ok ES c = true) (syn_conds_sel s) ->
-  forallb (Exe.ExecSpec.dirs_ok E) (Exe.ExecHyps.sub_sels (e_sel s)) = true ->
-  Exe.ExecSpec.sel_conds_ok ES E (e_sel s) = true
+  Forall (fun c => ExeA.ArgSpec.cond_ok ES c = true) (syn_conds_sel s) ->
+  forallb (ExeA.ArgSpec.dirs_ok E) (ExeA.ArgHyps.sub_sels (e_sel s)) = true ->
+  ExeA.ArgSpec.sel_conds_ok ES E (e_sel s) = true
 with exe_conds_ss ES E (ss : Syn.Ast.selset) :
-  Forall (fun c => Exe.ExecSpec.cond_ok ES c = true) (syn_conds_ss ss) ->
-  forallb (Exe.ExecSpec.dirs_ok E) (flat_map Exe.ExecHyps.sub_sels (e_ss ss)) = true ->
-  forallb (Exe.ExecSpec.sel_conds_ok ES E) (e_ss ss) = true.
+  Forall (fun c => ExeA.ArgSpec.cond_ok ES c = true) (syn_conds_ss ss) ->
+  forallb (ExeA.ArgSpec.dirs_ok E) (flat_map ExeA.ArgHyps.sub_sels (e_ss ss)) = true ->
+  forallb (ExeA.ArgSpec.sel_conds_ok ES E) (e_ss ss) = true.
 Proof.
   - destruct s as [alias n args dirs [sub|]|n dirs e|cond dirs sub e]; intros Hc Hd.
-    + cbn [e_sel Exe.ExecHyps.sub_sels forallb] in Hd. apply andb_true_iff in Hd as [Hd1 Hd2].
-      cbn [e_sel Exe.ExecSpec.sel_conds_ok]. rewrite Hd1. cbn [andb].
+    + cbn [e_sel ExeA.ArgHyps.sub_sels forallb] in Hd. apply andb_true_iff in Hd as [Hd1 Hd2].
+      cbn [e_sel ExeA.ArgSpec.sel_conds_ok]. rewrite Hd1. cbn [andb].
       apply exe_conds_ss; assumption.
-    + cbn [e_sel Exe.ExecHyps.sub_sels forallb] in Hd. apply andb_true_iff in Hd as [Hd1 _].
-      cbn [e_sel Exe.ExecSpec.sel_conds_ok]. rewrite Hd1. reflexivity.
-    + cbn [e_sel Exe.ExecHyps.sub_sels forallb] in Hd. apply andb_true_iff in Hd as [Hd1 _].
-      cbn [e_sel Exe.ExecSpec.sel_conds_ok]. rewrite Hd1. reflexivity.
-    + cbn [e_sel Exe.ExecHyps.sub_sels forallb] in Hd. apply andb_true_iff in Hd as [Hd1 Hd2].
-      cbn [e_sel Exe.ExecSpec.sel_conds_ok]. rewrite Hd1. cbn [andb].
+    + cbn [e_sel ExeA.ArgHyps.sub_sels forallb] in Hd. apply andb_true_iff in Hd as [Hd1 _].
+      cbn [e_sel ExeA.ArgSpec.sel_conds_ok]. rewrite Hd1. reflexivity.
+    + cbn [e_sel ExeA.ArgHyps.sub_sels forallb] in Hd. apply andb_true_iff in Hd as [Hd1 _].
+      cbn [e_sel ExeA.ArgSpec.sel_conds_ok]. rewrite Hd1. reflexivity.
+    + cbn [e_sel ExeA.ArgHyps.sub_sels forallb] in Hd. apply andb_true_iff in Hd as [Hd1 Hd2].
+      cbn [e_sel ExeA.ArgSpec.sel_conds_ok]. rewrite Hd1. cbn [andb].
       cbn [syn_conds_sel] in Hc. apply Forall_app in Hc as [Hc1 Hc2].
       apply andb_true_iff. split.
       * destruct cond as [c|]; [|reflexivity]. cbn [option_map]. inversion Hc1; assumption.
@@ -92,11 +92,11 @@ Proof.
 Qed.
 
 (** ** agreement of the encodings carries "composite" over *)
-Lemma exe_assoc_in {A} k (l : list (Exe.ExecData.name * A)) v :
-  Exe.ExecData.assoc k l = Some v -> In (k, v) l.
+Lemma exe_assoc_in {A} k (l : list (ExeA.ArgData.name * A)) v :
+  ExeA.ArgData.assoc k l = Some v -> In (k, v) l.
 Proof.
-  induction l as [|[k' v'] l IH]; cbn [Exe.ExecData.assoc]; [discriminate|].
-  destruct (Exe.ExecData.name_eqb k k') eqn:E.
+  induction l as [|[k' v'] l IH]; cbn [ExeA.ArgData.assoc]; [discriminate|].
+  destruct (ExeA.ArgData.name_eqb k k') eqn:E.
   - intro H. inversion H; subst. apply bytes_eqb_eq in E. subst. left; reflexivity.
   - intro H. right. apply IH. exact H.
 Qed.
@@ -104,11 +104,11 @@ Qed.
 Lemma cond_ok_of_agree VS F ES c b :
   schemas_agree VS ES = true ->
   Vld.ValidSpec.type_of VS F c = Some b -> Vld.Ast.is_composite_body b = true ->
-  Exe.ExecSpec.cond_ok ES c = true.
+  ExeA.ArgSpec.cond_ok ES c = true.
 Proof.
-  intros Ha Ht Hb. unfold Exe.ExecSpec.cond_ok.
-  destruct (Exe.ExecData.lookup_type ES c) as [t|] eqn:El; [|reflexivity].
-  unfold Exe.ExecData.lookup_type in El. apply exe_assoc_in in El.
+  intros Ha Ht Hb. unfold ExeA.ArgSpec.cond_ok.
+  destruct (ExeA.ArgData.lookup_type ES c) as [t|] eqn:El; [|reflexivity].
+  unfold ExeA.ArgData.lookup_type in El. apply exe_assoc_in in El.
   unfold schemas_agree in Ha. repeat (apply andb_true_iff in Ha as [Ha ?]).
   rewrite forallb_forall in Ha. specialize (Ha _ El). unfold type_agree in Ha. cbn [fst snd] in Ha.
   unfold Vld.ValidSpec.type_of, Vld.Ast.named_type in Ht.
@@ -174,45 +174,45 @@ Qed.
 
 (** ** the fragment definitions, then the whole document of the selected operation *)
 Lemma frags_conds_ok ES E d :
-  (forall x, In x d -> Forall (fun c => Exe.ExecSpec.cond_ok ES c = true) (syn_def_conds x)) ->
-  forallb (Exe.ExecSpec.dirs_ok E)
-          (flat_map (fun f => flat_map Exe.ExecHyps.sub_sels (Exe.ExecData.fr_sels f)) (e_frags d)) = true ->
-  forallb (fun f => Exe.ExecSpec.cond_ok ES (Exe.ExecData.fr_cond f)
-                    && forallb (Exe.ExecSpec.sel_conds_ok ES E) (Exe.ExecData.fr_sels f)) (e_frags d) = true.
+  (forall x, In x d -> Forall (fun c => ExeA.ArgSpec.cond_ok ES c = true) (syn_def_conds x)) ->
+  forallb (ExeA.ArgSpec.dirs_ok E)
+          (flat_map (fun f => flat_map ExeA.ArgHyps.sub_sels (ExeA.ArgData.fr_sels f)) (e_frags d)) = true ->
+  forallb (fun f => ExeA.ArgSpec.cond_ok ES (ExeA.ArgData.fr_cond f)
+                    && forallb (ExeA.ArgSpec.sel_conds_ok ES E) (ExeA.ArgData.fr_sels f)) (e_frags d) = true.
 Proof.
   induction d as [|x d IH]; intros Hc Hd; [reflexivity|].
   unfold e_frags in *. cbn [flat_map] in *.
   destruct x as [ot n vars dirs sub|kw n cond dirs sub].
   - cbn [app] in *. apply IH; [intros y Hy; apply Hc; right; exact Hy|exact Hd].
-  - cbn [app flat_map forallb Exe.ExecData.fr_sels Exe.ExecData.fr_cond] in *.
+  - cbn [app flat_map forallb ExeA.ArgData.fr_sels ExeA.ArgData.fr_cond] in *.
     rewrite forallb_app in Hd. apply andb_true_iff in Hd as [Hd1 Hd2].
     pose proof (Hc _ (or_introl eq_refl)) as Hx. cbn [syn_def_conds] in Hx. inversion Hx as [|c0 l0 Hc0 Hl0]; subst.
     rewrite Hc0. cbn [andb]. rewrite (exe_conds_ss ES E sub Hl0 Hd1). cbn [andb].
     apply IH; [intros y Hy; apply Hc; right; exact Hy|exact Hd2].
 Qed.
 
-Theorem accepted_conds_ok pi VS F ES bs d opname o E :
+Theorem accepted_conds_ok pi VS F ES bs d opname o vv E :
   Vld.ProofsCommon.order_ok pi -> schemas_agree VS ES = true ->
   parse_and_validate_order pi VS F bs = FAccepted d ->
-  Exe.ExecModel.get_operation (exe_of_syn d) opname = Exe.ExecModel.GOp o ->
-  Exe.ExecHyps.dirs_evaluable (Exe.ExecData.doc_of (exe_of_syn d) o) E = true ->
-  Exe.ExecSpec.conds_ok ES (Exe.ExecData.doc_of (exe_of_syn d) o) E = true.
+  ExeA.ArgModel.get_operation (exe_of_syn d) opname = ExeA.ArgModel.GOp o ->
+  ExeA.ArgHyps.dirs_evaluable (ExeA.ArgData.doc_of (exe_of_syn d) o vv) E = true ->
+  ExeA.ArgSpec.conds_ok ES (ExeA.ArgData.doc_of (exe_of_syn d) o vv) E = true.
 Proof.
   intros Hpi Ha Hacc Hg Hev.
   assert (Hv : validate_doc pi VS F d = Vld.Ast.Done []).
   { destruct (front_cases pi Hpi VS F bs) as [(e & es & t & H & _)|[(d' & e & es & H & _)|(d' & H & _ & Hv)]];
       rewrite Hacc in H; try discriminate. inversion H; subst d'. exact Hv. }
   pose proof (accepted_type_conditions pi VS F d Hpi Hv) as Htc. rewrite Forall_forall in Htc.
-  assert (Hok : forall x, In x d -> Forall (fun c => Exe.ExecSpec.cond_ok ES c = true) (syn_def_conds x)).
+  assert (Hok : forall x, In x d -> Forall (fun c => ExeA.ArgSpec.cond_ok ES c = true) (syn_def_conds x)).
   { intros x Hx. apply Forall_forall. intros c Hc.
     destruct (Htc c (type_conditions_incl d x c Hx Hc)) as (b & Hb & Hcomp).
     exact (cond_ok_of_agree VS F ES c b Ha Hb Hcomp). }
   destruct (selected_operation d opname o Hg) as (d1 & d2 & ot & n & vars & dirs & sub & Hd & Hs).
-  unfold Exe.ExecHyps.dirs_evaluable, Exe.ExecHyps.all_sels in Hev.
-  cbn [Exe.ExecData.doc_of Exe.ExecData.op_sels Exe.ExecData.frags exe_of_syn Exe.ExecData.r_frags] in Hev.
+  unfold ExeA.ArgHyps.dirs_evaluable, ExeA.ArgHyps.all_sels in Hev.
+  cbn [ExeA.ArgData.doc_of ExeA.ArgData.op_sels ExeA.ArgData.frags exe_of_syn ExeA.ArgData.r_frags] in Hev.
   rewrite forallb_app in Hev. apply andb_true_iff in Hev as [Hev1 Hev2].
-  unfold Exe.ExecSpec.conds_ok.
-  cbn [Exe.ExecData.doc_of Exe.ExecData.op_sels Exe.ExecData.frags exe_of_syn Exe.ExecData.r_frags].
+  unfold ExeA.ArgSpec.conds_ok.
+  cbn [ExeA.ArgData.doc_of ExeA.ArgData.op_sels ExeA.ArgData.frags exe_of_syn ExeA.ArgData.r_frags].
   apply andb_true_iff. split.
   - rewrite Hs in *. apply exe_conds_ss; [|exact Hev1].
     assert (Hin : In (Syn.Ast.DOp ot n vars dirs sub) d) by (subst d; apply in_or_app; right; left; reflexivity).
@@ -222,47 +222,48 @@ Qed.
 
 (** [cond_ok] is exactly "doesFragmentTypeApply does not panic" *)
 Lemma cond_ok_no_panic ES c ot :
-  Exe.ExecSpec.cond_ok ES c = true -> Exe.ExecModel.type_applies ES ot c <> Exe.ExecModel.ApPanic.
+  ExeA.ArgSpec.cond_ok ES c = true -> ExeA.ArgModel.type_applies ES ot c <> ExeA.ArgModel.ApPanic.
 Proof.
-  unfold Exe.ExecSpec.cond_ok, Exe.ExecModel.type_applies.
-  destruct (Exe.ExecData.lookup_type ES c) as [[k|vs|fs ifs|fs|ms|]|]; try discriminate; intros _.
-  - destruct (Exe.ExecData.name_eqb ot c); discriminate.
-  - destruct (Exe.ExecData.lookup_type ES ot) as [[| |fs' ifs'| | |]|]; try discriminate.
-    destruct (Exe.ExecData.mem c ifs'); discriminate.
-  - destruct (Exe.ExecData.mem ot ms); discriminate.
+  unfold ExeA.ArgSpec.cond_ok, ExeA.ArgModel.type_applies.
+  destruct (ExeA.ArgData.lookup_type ES c) as [[k|vs|fs ifs|fs|ms|]|]; try discriminate; intros _.
+  - destruct (ExeA.ArgData.name_eqb ot c); discriminate.
+  - destruct (ExeA.ArgData.lookup_type ES ot) as [[| |fs' ifs'| | |]|]; try discriminate.
+    destruct (ExeA.ArgData.mem c ifs'); discriminate.
+  - destruct (ExeA.ArgData.mem ot ms); discriminate.
 Qed.
 
 (** ** the open obligation, reduced: what is left of [doc_ok] is the typing of the collected fields *)
-Definition doc_typed ES (D : Exe.ExecData.document) E : bool :=
-  match Exe.ExecSpec.s_root_type ES (Exe.ExecData.op_kind D) with
-  | Some rt => Exe.ExecSpec.sels_ok ES D E (Exe.ExecModel.default_fuel D) (Exe.ExecModel.default_fuel D) rt (Exe.ExecData.op_sels D)
+Definition doc_typed ES (D : ExeA.ArgData.document) E : bool :=
+  match ExeA.ArgSpec.s_root_type ES (ExeA.ArgData.op_kind D) with
+  | Some rt => ExeA.ArgSpec.sels_ok ES D E (ExeA.ArgModel.default_fuel D) (ExeA.ArgModel.default_fuel D) rt (ExeA.ArgData.op_sels D)
   | None => false
   end.
 
 Definition validate_establishes_typing pi VS F ES : Prop :=
-  forall bs d opname o E,
+  forall bs d opname o vv,
     parse_and_validate_order pi VS F bs = FAccepted d ->
-    Exe.ExecModel.get_operation (exe_of_syn d) opname = Exe.ExecModel.GOp o ->
-    let D := Exe.ExecData.doc_of (exe_of_syn d) o in
-    Exe.ExecHyps.dirs_evaluable D E = true -> doc_typed ES D E = true.
+    ExeA.ArgModel.get_operation (exe_of_syn d) opname = ExeA.ArgModel.GOp o ->
+    let D := ExeA.ArgData.doc_of (exe_of_syn d) o vv in
+    let E := ExeA.ArgArgs.env_of_vars vv in
+    ExeA.ArgHyps.dirs_evaluable D E = true -> doc_typed ES D E = true.
 
 Theorem doc_ok_from_typing pi VS F ES :
   Vld.ProofsCommon.order_ok pi -> schemas_agree VS ES = true ->
   validate_establishes_typing pi VS F ES -> validate_establishes_doc_ok pi VS F ES.
 Proof.
-  intros Hpi Ha Ht bs d opname o E Hacc Hg D Hev. subst D.
-  unfold Exe.ExecSpec.doc_ok. rewrite (accepted_conds_ok pi VS F ES bs d opname o E Hpi Ha Hacc Hg Hev).
-  cbn [andb]. exact (Ht bs d opname o E Hacc Hg Hev).
+  intros Hpi Ha Ht bs d opname o vv Hacc Hg D E Hev. subst D E.
+  unfold ExeA.ArgSpec.doc_ok. rewrite (accepted_conds_ok pi VS F ES bs d opname o vv _ Hpi Ha Hacc Hg Hev).
+  cbn [andb]. exact (Ht bs d opname o vv Hacc Hg Hev).
 Qed.
 
-Theorem pipeline_response_if_typing pi VS F ES bs opname VE W :
+Theorem pipeline_response_if_typing pi VS F ES bs opname raw W :
   Vld.ProofsCommon.order_ok pi ->
-  Exe.ExecHyps.type_names_okb ES = true -> schemas_agree VS ES = true ->
+  schema_accepted ES = true -> schemas_agree VS ES = true ->
   validate_establishes_typing pi VS F ES -> text_positions_small bs ->
-  request_evaluable pi VS F bs opname VE ->
-  is_response (pipeline_order pi VS F ES bs opname VE W) = true.
+  request_evaluable pi VS F ES bs opname raw ->
+  is_response (pipeline_order pi VS F ES bs opname raw W) = true.
 Proof.
   intros Hpi Hn Ha Ht Hp Hev.
-  apply (pipeline_response_if_obligations pi Hpi VS F ES bs opname VE W Hn); try assumption.
+  apply (pipeline_response_if_obligations pi Hpi VS F ES bs opname raw W Hn); try assumption.
   apply doc_ok_from_typing; assumption.
 Qed.
